@@ -4,7 +4,8 @@ DIR="$(cd "$(dirname "$0")/.." && pwd)"; cd "$DIR"
 TIER=$1; SEED=$2; shift 2
 PROPS=${*:-C01 C02 C03 C04 C05 C06 C07 C08 C09 C10 C11 C12 C13 C14 C15 C16 C17 C18 C19}
 for p in $PROPS; do
-  OUT=$(VERIF_SEED=$SEED ./check $p --tier $TIER --no-evidence 2>&1); RC=$?
+  OUT=$(VERIF_MARGINS=1 VERIF_SEED=$SEED ./check $p --tier $TIER --no-evidence 2>&1); RC=$?
   echo "$p seed=$SEED tier=$TIER exit=$RC | $(echo "$OUT" | grep -v '^KNOWN\|^\[OPENQL' | tail -1 | cut -c1-220)"
+  echo "$OUT" | grep '^MARGIN' | cut -c1-200
   if [ $RC -ne 0 ]; then echo "$OUT" | grep -v '^KNOWN\|^\[OPENQL' | tail -8 | cut -c1-400; fi
 done
